@@ -17,15 +17,59 @@ theorem logOf_flush (s : State) : logOf (flush s) = logOf s := by
   unfold flush logOf
   split <;> simp_all
 
-theorem sublist_step_nonadd (s : State) (op : Op) (h : ∀ e, op ≠ .add e) :
+theorem logOf_runTasksN (n : Nat) (s : State) : logOf (runTasksN n s) = logOf s := by
+  induction n generalizing s with
+  | zero => rfl
+  | succ k ih =>
+    simp only [runTasksN]
+    rw [ih]
+    show logOf { flush s with tasks := s.tasks - 1 } = logOf s
+    have := logOf_flush s
+    simpa [logOf] using this
+
+theorem logOf_runTasks (s : State) : logOf (runTasks s) = logOf s := logOf_runTasksN _ s
+
+theorem sublist_addRaw (s : State) (e : Entry) : (logOf (addRaw s e)).Sublist (logOf s ++ [e]) := by
+  unfold addRaw
+  split
+  · exact List.sublist_append_left _ _
+  · have hp : (push (ringCap s.conf) s.mem e).Sublist (s.mem ++ [e]) := by
+      rw [push_eq_drop]; exact List.drop_sublist _ _
+    dsimp only
+    split <;>
+    · simp only [logOf, List.append_assoc]
+      exact List.Sublist.append_left (List.Sublist.append_left hp _) _
+
+theorem sublist_shutdown (s : State) : (logOf (shutdown s)).Sublist (logOf s) := by
+  simp only [shutdown]
+  split
+  · rw [logOf_flush]; exact List.Sublist.refl _
+  · exact List.Sublist.refl _
+
+theorem sublist_restart (s : State) (m : Nat) (f en : Bool) : (logOf (restart s m f en)).Sublist (logOf s) := by
+  simp only [restart]
+  refine List.Sublist.trans ?_ (sublist_shutdown s)
+  simp only [logOf, List.append_nil]
+  exact List.sublist_append_left _ _
+
+theorem sublist_applyThen (s : State) (t : Then) : (logOf (applyThen s t)).Sublist (logOf s) := by
+  cases t with
+  | clear => simp [applyThen, clear, logOf]
+  | shutdown => exact sublist_shutdown s
+  | restart m f en => exact sublist_restart s m f en
+
+/-- The record an operation submits, if any. -/
+def opEntry : Op → Option Entry
+  | .add e => some e
+  | .addThen e _ => some e
+  | _ => none
+
+theorem sublist_step_nonadd (s : State) (op : Op) (h : opEntry op = none) :
     (logOf (step s op)).Sublist (logOf s) := by
   cases op with
-  | add e => exact absurd rfl (h e)
-  | shutdown =>
-    simp only [step, shutdown]
-    split
-    · rw [logOf_flush]; exact List.Sublist.refl _
-    · exact List.Sublist.refl _
+  | add e => cases h
+  | addThen e t => cases h
+  | shutdown => exact sublist_shutdown s
   | rotate =>
     simp only [step, rotate]
     split
@@ -44,48 +88,43 @@ theorem sublist_step_nonadd (s : State) (op : Op) (h : ∀ e, op ≠ .add e) :
         · simp only [logOf, List.append_nil]
           exact List.Sublist.append_right (List.sublist_append_right _ _) _
   | clear => simp [step, clear, logOf]
-  | restart m f en =>
-    simp only [step, restart]
-    have h1 : (logOf (shutdown s)).Sublist (logOf s) := by
-      simp only [shutdown]
-      split
-      · rw [logOf_flush]; exact List.Sublist.refl _
-      · exact List.Sublist.refl _
-    refine List.Sublist.trans ?_ h1
-    simp only [logOf, List.append_nil]
-    exact List.sublist_append_left _ _
-  | putConf en ivl ign =>
+  | restart m f en => exact sublist_restart s m f en
+  | putConf en an ivl ign =>
     simp only [step, putConf]
     split <;> exact List.Sublist.refl _
   | setClients tbl => exact List.Sublist.refl _
 
-theorem sublist_step_add (s : State) (e : Entry) :
-    (logOf (step s (.add e))).Sublist (logOf s ++ [e]) := by
-  simp only [step, addEntry]
-  split
-  · exact List.sublist_append_left _ _
-  · have hp : (push (ringCap s.conf) s.mem e).Sublist (s.mem ++ [e]) := by
-      rw [push_eq_drop]; exact List.drop_sublist _ _
-    have h2 : (logOf { s with mem := push (ringCap s.conf) s.mem e }).Sublist (logOf s ++ [e]) := by
-      simp only [logOf, List.append_assoc]
-      exact List.Sublist.append_left (List.Sublist.append_left hp _) _
-    split
-    · rw [logOf_flush]; exact h2
-    · exact h2
+theorem sublist_step_add (s : State) (op : Op) (e : Entry) (h : opEntry op = some e) :
+    (logOf (step s op)).Sublist (logOf s ++ [e]) := by
+  cases op with
+  | add e' =>
+    simp only [opEntry, Option.some.injEq] at h; subst h
+    simp only [step, logOf_runTasks]
+    exact sublist_addRaw s e'
+  | addThen e' t =>
+    simp only [opEntry, Option.some.injEq] at h; subst h
+    simp only [step, logOf_runTasks]
+    exact (sublist_applyThen _ t).trans (sublist_addRaw s e')
+  | shutdown => cases h
+  | rotate => cases h
+  | rotCheck now => cases h
+  | clear => cases h
+  | restart m f en => cases h
+  | putConf en an ivl ign => cases h
+  | setClients tbl => cases h
 
 theorem invT_step (s : State) (last : Int) (op : Op) (h : InvT s last) :
-    match op with
-    | .add e => last < e.ts → InvT (step s op) e.ts
-    | _ => InvT (step s op) last := by
+    match opEntry op with
+    | some e => last < e.ts → InvT (step s op) e.ts
+    | none => InvT (step s op) last := by
   obtain ⟨hi, hb⟩ := h
-  have nonadd : ∀ op : Op, (∀ e, op ≠ .add e) → InvT (step s op) last := by
-    intro op hop
+  cases hop : opEntry op with
+  | none =>
     have hsub := sublist_step_nonadd s op hop
     exact ⟨List.Pairwise.sublist hsub hi, fun e he => hb e (hsub.subset he)⟩
-  cases op with
-  | add e =>
+  | some e =>
     intro hlt
-    have hsub := sublist_step_add s e
+    have hsub := sublist_step_add s op e hop
     have hasc : Asc (logOf s ++ [e]) := by
       apply List.pairwise_append.mpr
       refine ⟨hi, by simp, ?_⟩
@@ -101,13 +140,6 @@ theorem invT_step (s : State) (last : Int) (op : Op) (h : InvT s last) :
     rcases this with h1 | h1
     · have := hb x h1; omega
     · subst h1; omega
-  | shutdown => exact nonadd _ (by intro e h; cases h)
-  | rotate => exact nonadd _ (by intro e h; cases h)
-  | rotCheck now => exact nonadd _ (by intro e h; cases h)
-  | clear => exact nonadd _ (by intro e h; cases h)
-  | restart m f en => exact nonadd _ (by intro e h; cases h)
-  | putConf en ivl ign => exact nonadd _ (by intro e h; cases h)
-  | setClients tbl => exact nonadd _ (by intro e h; cases h)
 
 theorem invT_init (c : Conf) (last : Int) : InvT (init c) last := by
   refine ⟨?_, by simp [logOf, init]⟩
